@@ -19,6 +19,8 @@ func checkC16(c *Ctx) {
 	c.rule("C16.c", "nSrc advances only after the destination-space check", 3)
 	c.rule("C16.d", "encoder and decoder agree on the self-representing interval [min, max]", 4)
 	rulePrintableInterval(c, "C16.d")
+	c.rule("C16.e", "use for mailbox names: the wire encoder applies modified UTF-7 exactly where the decoder inverts it", 26)
+	ruleMailboxTransform(c, "C16.e")
 	p := c.P
 	pk := p.Pkgs[modPath+"/internal/utf7"]
 	n := 0
